@@ -459,6 +459,7 @@ package fsm
 //@   ensures [C01.lookup.single] err == nil && isNilSlice(req.RangeEnd) ==> resp != nil && fresh(resp) && !resp.More && resp.Count == (reader.vP[encK(1, bytesOf(req.Key))] ? 1 : 0)
 //@   ensures [C01.lookup.value]  err == nil && isNilSlice(req.RangeEnd) && reader.vP[encK(1, bytesOf(req.Key))] && !req.CountOnly && !req.KeysOnly ==> len(resp.Kvs) == 1 && resp.Kvs[0] != nil && bytesOf(resp.Kvs[0].Value) == reader.vV[encK(1, bytesOf(req.Key))]
 //@   ensures [C01.lookup.range]  err == nil && !isNilSlice(req.RangeEnd) && req.Limit == 0 ==> resp != nil && fresh(resp) && resp.More == (resp.Count < cnt(reader.vP, encK(1, bytesOf(req.Key)), hiB(req.RangeEnd)))
+//@   ensures [C01.lookup.range.count] err == nil && !isNilSlice(req.RangeEnd) && req.Limit == 0 && !resp.More ==> resp.Count == cnt(reader.vP, encK(1, bytesOf(req.Key)), hiB(req.RangeEnd))      // also for a present-but-empty range_end: the (empty) range, not the single key
 //@   modifies nothing
 
 //@ func wrapResponseOp
@@ -1166,3 +1167,21 @@ package fsm
 //@   ensures [C14.new.fields+C04+C08+C11] typeIs(result, *FSM) && asType(result, *FSM) != nil && fresh(asType(result, *FSM)) && asType(result, *FSM).tableName == *tableName && asType(result, *FSM).clusterID == clusterID && asType(result, *FSM).nodeID == nodeID && asType(result, *FSM).fs == *fs && asType(result, *FSM).recoveryType == *srt && asType(result, *FSM).appliedFunc == *af && asType(result, *FSM).metrics != nil && asType(result, *FSM).log != nil
 //@   before pebble.GetNodeDBDirName assert [C04.new.dir] baseDir == *stateMachineDir
 //@   modifies nothing
+
+// ---------------------------------------------------------------- the three fillers of a range answer (C09, C01)
+
+// each filler adds exactly one entry / count; keys (and values) are COPIED out of the iterator's buffers
+// (which pebble reuses on the next step) into fresh slices of their own
+//@ func addKVPair
+//@   requires response != nil && len(response.Kvs) == response.Count
+//@   ensures [C09.fill.pair+C01] len(response.Kvs) == old(len(response.Kvs)) + 1 && response.Count == old(response.Count) + 1 && response.Kvs[len(response.Kvs)-1] != nil && fresh(response.Kvs[len(response.Kvs)-1]) && fresh(response.Kvs[len(response.Kvs)-1].Key) && fresh(response.Kvs[len(response.Kvs)-1].Value) && bytesOf(response.Kvs[len(response.Kvs)-1].Key) == old(bytesOf(key)) && bytesOf(response.Kvs[len(response.Kvs)-1].Value) == old(bytesOf(value))
+//@   ensures forall j int :: 0 <= j && j < old(len(response.Kvs)) ==> response.Kvs[j] == old(response.Kvs[j])
+//@   modifies response.Kvs, response.Count, elems(response.Kvs, len(response.Kvs), cap(response.Kvs))
+//@ func addKeyOnly
+//@   requires response != nil
+//@   ensures [C09.fill.key+C01] len(response.Kvs) == old(len(response.Kvs)) + 1 && response.Count == old(response.Count) + 1 && response.Kvs[len(response.Kvs)-1] != nil && fresh(response.Kvs[len(response.Kvs)-1]) && fresh(response.Kvs[len(response.Kvs)-1].Key) && bytesOf(response.Kvs[len(response.Kvs)-1].Key) == old(bytesOf(key)) && len(response.Kvs[len(response.Kvs)-1].Value) == 0
+//@   modifies response.Kvs, response.Count, elems(response.Kvs, len(response.Kvs), cap(response.Kvs))
+//@ func addCountOnly
+//@   requires response != nil
+//@   ensures [C09.fill.count] response.Count == old(response.Count) + 1 && len(response.Kvs) == old(len(response.Kvs))
+//@   modifies response.Count
